@@ -71,6 +71,23 @@ def replay_potential(kind, normalized=True):
     return replay
 
 
+def replay_continuity(kind):
+    def replay(m):
+        co = _mod()
+        with unpatched(co):
+            import scipy.special
+            co.erf = scipy.special.erf
+            try:
+                alpha, r = float(m.get("alpha", 0.25)), float(m.get("r", 2.0))
+                f = co.coulomb_gaussian_s if kind == "s" else co.coulomb_gaussian_p
+                got, v0 = float(f(np.array([r]), alpha)[0]), float(f(np.array([0.0]), alpha)[0])
+                bound = 2 * np.sqrt(alpha / np.pi) * 2 * alpha * r * r
+                return abs(got - v0) > bound * (1 + 1e-9) + 1e-13 * abs(v0), dict(function=f.__name__, alpha=alpha, r=r, value=got, value_at_origin=v0, allowed_difference=bound)
+            finally:
+                co.erf = _erf
+    return replay
+
+
 def job_radial(ctx: Ctx, kind):
     co = install()
     e = ctx.engine
@@ -117,6 +134,11 @@ def job_radial(ctx: Ctx, kind):
                       (V - lim_code <= 0) & (lim_code - V <= 2 * s * RSP * 2 * alpha * r * r), p.pc, assume=A + [ex <= 1, ex >= 1 - alpha * r * r], key=key + ":continuity", replay=R)
         else:         # branch r < threshold: the constant must be the r -> 0 limit of the potential of the documented density
             ctx.eq("value below the switch == limit r -> 0 of the potential of the documented density", V, limit0, p.pc, replay=R, key=key + ":origin")
+            # every path without the erf term must still join the origin value continuously (a path that is neither the origin branch nor the regular
+            # formula would show here)
+            lim_code = 2 * s * RSP if kind == "s" else Fraction(10, 3) * s * RSP
+            ctx.holds("continuity on every path without the erf term: |V(r) - V(origin branch)| <= (2 sqrt(alpha)/sqrt(pi)) * 2 alpha r^2",
+                      (V - lim_code <= 0) & (lim_code - V <= 2 * s * RSP * 2 * alpha * r * r), p.pc, assume=[ex <= 1, ex >= 1 - alpha * r * r], key=key + ":continuity", replay=replay_continuity(kind))
 
 
 def job_superposition(ctx: Ctx, ns, npp):
